@@ -158,6 +158,17 @@ def classify(div, ctx=None):
         # C01 speaks about what a successful checked retrieval hands out)
         if last == "extract" and ctx.get("last_res_ok"):
             props.add("C01")
+        # an external file some entry LINKS TO changed: whatever call did it, C19 (link targets are
+        # never modified) speaks about it
+        try:
+            e_ = {x["id"]: x["b"] for x in (exp or [])}
+            o_ = {x["id"]: x["b"] for x in (obs or [])}
+            changed = {i for i in set(e_) | set(o_) if e_.get(i) != o_.get(i)}
+            targets = {c["c"].get("to") for c in (ev.get("store") or []) if c.get("c", {}).get("k") == "link"}
+            if changed & targets:
+                props.add("C19")
+        except (TypeError, KeyError, AttributeError):
+            pass
     elif what == "tmp":
         props |= {"C14"}
         if ctx.get("last_op") in ("read", "metadata", "exists", "list"):
